@@ -569,7 +569,10 @@ def _run_chunk(task):
         try:
             v = events.with_watchdog(lambda c=c: fn(c), 20)
         except events.Hang:
-            v = [vio("C00", "hang", "case did not terminate", c, name)]
+            try:  # believed only when it happens twice, the second time with a 5x limit
+                v = events.with_watchdog(lambda c=c: fn(c), 100)
+            except events.Hang:
+                v = [vio("C00", "hang", "case did not terminate", c, name)]
         out.extend(v)
     return len(cases), out
 
